@@ -412,7 +412,7 @@ def make_keys(seed, profile):
     rnd = random.Random('keys:%s' % seed)
     v = rnd.choice(KEY_POOL)
     w = rnd.choice([v, v, rnd.choice(KEY_POOL), rnd.choice(KEY_POOL)])
-    shape = rnd.choice(['args', 'kw', 'kwextra', 'both', 'nested'])
+    shape = rnd.choice(['args', 'kw', 'kwextra', 'both', 'nested', 'poskw'])
     if shape == 'args':
         c1, c2 = {'args': [v]}, {'args': [w]}
     elif shape == 'kw':
@@ -423,6 +423,11 @@ def make_keys(seed, profile):
             c1, c2 = c2, c1
     elif shape == 'both':
         c1, c2 = {'args': [v, w], 'kw': {'k': v}}, {'args': [v, w], 'kw': {'k': v}}
+    elif shape == 'poskw':       # the same items once as a trailing positional dict, once as keyword arguments
+        lead = rnd.choice([[], [v], [v, 1]])
+        c1, c2 = {'args': lead + [{'k': w}]}, {'args': list(lead), 'kw': {'k': w}}
+        if rnd.random() < 0.5:
+            c1, c2 = c2, c1
     else:
         c1, c2 = {'args': [[v, {'n': w}]]}, {'args': [(v, {'n': w})]}
     kind = rnd.choice(['sb', 'bf', 'bf'])
@@ -912,6 +917,14 @@ def make_faultretry(seed, profile):
     wrap = rnd.random() < 0.4      # the first build makes its calls inside a subbuild
     first = [{'s': 'bf', 'p': t, 'f': 'fA', 'args': [i], 'cmp': rnd.choice(['METADATA', 'HASH']), 'catch': True}
              for i, t in enumerate(targets)]
+    if rnd.random() < 0.45:
+        # a deeper record: the first output's function builds another file (in a directory it shares with a
+        # sibling, or in one of its own) before it writes - or that nested call fails and is caught
+        inner = rnd.choice([['d', 'e', 'q'], ['d', 'q'], ['g', 'q'], ['n', 'q'], ['u', 'v', 'q']])
+        prog['fN'] = [{'s': 'bf', 'p': inner, 'f': rnd.choice(['fA', 'fA', 'fC']), 'args': [9], 'cmp': 'METADATA', 'catch': True},
+                      {'s': 'write', 'c': 'c1', 'sz': 6}, {'s': 'return'}]
+        first[0]['f'] = 'fN'
+        wrap = wrap or rnd.random() < 0.5
     if wrap:
         prog['sA'] = [dict(c) for c in first] + [{'s': 'return'}]
         root1 = [{'s': 'sb', 'f': 'sA', 'args': [0], 'catch': True}, {'s': 'return'}]
@@ -934,7 +947,13 @@ def make_faultretry(seed, profile):
         else:
             root2.append(orig)
     if wrap and rnd.random() < 0.6:
-        root2.append({'s': 'sb', 'f': 'sA', 'args': [0], 'catch': True})
+        sa = {'s': 'sb', 'f': 'sA', 'args': [0], 'catch': True}
+        if rnd.random() < 0.5:
+            # the recorded subbuild is asked for first (it is served from the cache, unless the fault hits its
+            # application), the direct calls follow (duplicates if it was served)
+            root2 = [sa] + (root2 if rnd.random() < 0.5 else [])
+        else:
+            root2.append(sa)
     rnd.shuffle(root2) if rnd.random() < 0.2 else None
     crash = rnd.random() < 0.5
     steps.append({'op': 'build', 'name': 'B', 'vers': {}, 'root': root2 + [{'s': 'raise'} if crash else {'s': 'return'}]})
